@@ -35,6 +35,9 @@ impl L {
     pub fn intact(&self) -> bool {
         self.payload == payload_of(self.id)
     }
+    pub fn id(&self) -> u32 {
+        self.id
+    }
 }
 impl Clone for L {
     fn clone(&self) -> L {
